@@ -98,9 +98,10 @@ var stallsOf = map[string][]stallSpec{
 	"fork":      {{"sink:db", 3}, {"sink:s", 3}, {"run:log", 2}, {"run:influxdb_out", 2}},
 	"union":     {{"sink:u", 5}, {"run:union", 3}, {"emit:union:2", 3}, {"run:log", 4}},
 	"join":      {{"sink:j", 5}, {"run:join", 3}},
+	"udf":       {{"sink:s", 4}, {"emit:mirror:3", 2}},
 }
 
-var pipeOrder = []string{"influx1", "influx3", "influxbig", "chain", "alert", "log", "post", "loopback", "fork", "union", "join"}
+var pipeOrder = []string{"influx1", "influx3", "influxbig", "chain", "alert", "log", "post", "loopback", "fork", "union", "join", "udf"}
 
 // bigN: a backlog of more than one edge buffer that still fits in front of the stall
 // (source edge 1000 + 1001 per node in front of the stalled one).
@@ -153,6 +154,8 @@ func scenarios(r *rt.Run) ([]scen, int) {
 	add(scen{Pipe: "loopback", N: 2300, Stop: "StopTask", Stall: "run:kapacitor_loopback", Release: "after"})
 	add(scen{Pipe: "loopback", N: 900, Stop: "StopTask", Stall: "run:kapacitor_loopback", Release: "after"})
 	add(scen{Pipe: "loopback", N: 900, Stop: "DeleteTask", Stall: "run:kapacitor_loopback", Release: "after"})
+	// stop requested before the UDF node goroutine has opened its UDF (known nil dereference)
+	add(scen{Pipe: "udf", N: 5, Stop: "StopTask", Stall: "run:mirror", Release: "after"})
 	// a writer that keeps offering points while the daemon shuts down: every acknowledged point counts
 	for _, p := range []string{"influx1", "alert", "log", "union", "fork"} {
 		for _, api := range []string{"Close", "DrainStopTasks"} {
